@@ -49,7 +49,10 @@ def gen_history(rng, tier):
     n = rng.randint(0, 8 if tier == "quick" else 16)
     for i in range(n):
         r = rng.random()
-        if r < 0.55:
+        if r < 0.02:
+            # a record far longer than any buffer (the formatting buffer of the logging thread grows and is reused afterwards)
+            ops.append("W:" + g.hx(g.record(rng, cfg, rng.choice([5000, 9000, 17000]), i)))
+        elif r < 0.55:
             ops.append("W:" + g.hx(g.record(rng, cfg, g.sizes_around(rng, max(lim, 4)), i)))
         elif r < 0.65:
             ops.append("P:" + g.hx(bytes([65 + i % 26]) * g.sizes_around(rng, max(lim, 4))))
